@@ -35,6 +35,23 @@ function hostilePrograms() {
       ["GT", ObjT([Prop("a", Ref("T")), Prop("b", ArrT(Ref("T")))])],
     ],
   });
+  // named (recursive, shared) types whose names are also members of Object.prototype: every per-name table in the
+  // runtime has to be an own-property one
+  progs.push({
+    family: "HOSTILE",
+    decls: [
+      Alias("constructor", ObjT([Prop("c", L(2)), Prop("again", U(Ref("constructor"), P("null")))])),
+      Alias("valueOf", ObjT([Prop("v", L(1)), Prop("kids", ArrT(Ref("valueOf")))])),
+      Alias("toString", U(L("leaf"), Tup([Ref("toString"), Ref("toString")]))),
+      Alias("hasOwnProperty", ObjT([Prop("h", P("string"))])),
+    ],
+    parsers: [
+      ["N1", Ref("constructor")],
+      ["N2", ObjT([Prop("a", Ref("valueOf")), Prop("b", Ref("valueOf"), true)])],
+      ["N3", Ref("toString")],
+      ["N4", Tup([Ref("hasOwnProperty"), Ref("hasOwnProperty"), Ref("constructor")])],
+    ],
+  });
   // precedence and text-level traps: operator characters inside string literals and JSDoc text, unions inside
   // intersections (inline, so that they are printed in place), intersections inside union variants, arrays of both
   {
